@@ -25,6 +25,8 @@ mod arms;
 #[cfg(kani)]
 pub mod c01;
 #[cfg(kani)]
+mod c01m;
+#[cfg(kani)]
 mod c01v;
 #[cfg(kani)]
 mod c02;
@@ -41,8 +43,10 @@ mod c12;
 #[cfg(kani)]
 mod c13;
 #[cfg(kani)]
-mod c17;
+pub mod c17;
 #[cfg(kani)]
 mod c19;
+#[cfg(kani)]
+pub mod c19f;
 #[cfg(kani)]
 mod cost_table;
